@@ -339,6 +339,9 @@ META['C07'] = {
     'assumptions': ['the cursor is observed through a marker typed at it and read from the written file'],
 }
 JOBS['C07'] = [
+    # the same with the order option on (multi-byte lines then take the reordering path of ren_position): column motions on the buffer with a wide character and a tab
+    {'name': 'motions_order_on', 'harness': 'c07_mot.c', 'units': 'ALL', 'defs': {'NMOT': 39, 'ORDERON': 1, 'BUFSEL': 1, 'MOTMASK': '0x70000000f3ULL'},
+     'expect_reach': ['end', 'asserted'], 'timeout': {'quick': 290, 'thorough': 1700}, 'max_steps': 60000000, 'validate': {'quick': 4, 'thorough': 8}},
     {'name': 'motions', 'harness': 'c07_mot.c', 'units': 'ALL', 'defs': {'quick': {'NMOT': 39}, 'thorough': {'LL': 2, 'NMOT': 39, 'SYMTEXT': 1, 'NCNT': 3}}, 'heavy': True,
      'expect_reach': ['end', 'asserted'], 'timeout': {'quick': 290, 'thorough': 3000}, 'max_steps': 60000000, 'validate': {'quick': 8, 'thorough': 16}},
 ]
